@@ -203,4 +203,13 @@ def main(prop: str, runner, argv: list[str]) -> int:
     except Exception as exc:  # machinery failure
         traceback.print_exc()
         print(f"MACHINERY-ERROR property={prop}: {type(exc).__name__}: {exc}", file=sys.stderr)
+        if ctx._violations:
+            # violations of the property observed on the real code before the machinery gave up are
+            # evidence in their own right (a self-check typically fails BECAUSE the code misbehaves)
+            ctx.extra["machinery_error_after_violations"] = f"{type(exc).__name__}: {exc}"
+            try:
+                if ctx.finish() == 1:
+                    return 1
+            except Exception:  # noqa: BLE001
+                traceback.print_exc()
         return 2
